@@ -458,6 +458,8 @@ def run_warning(case) -> dict:
     refkey = make_key(tuple(case["keyspec"]), case["seed"])
     encs = text_encodings(refkey)
     f = {}
+    # the same text as it comes out of a file or an environment variable: preceded by a line break or blanks
+    encs = {**encs, **{n + "+leading-newline": b"\n" + d for n, d in encs.items()}, **{n + "+leading-blanks": b"  \r\n" + d for n, d in encs.items()}}
     for name, data in encs.items():
         for as_str in (False, True):
             with warnings.catch_warnings(record=True) as w:
